@@ -26,6 +26,13 @@ Theorem C03_delivered_at_most_once : forall (b0 : N) (l : list (N * bool)),
 Proof. exact delivered_at_most_once. Qed.
 Print Assumptions C03_delivered_at_most_once.
 
+(* ... also when key-setup attempts that fail (low-order point, unsupported exchange, completion
+   without an exchange in progress) are interleaved anywhere in the history: they are no step. *)
+Theorem C03_delivered_at_most_once_failed_setups : forall (b0 : N) (l : list dop),
+  NoDup (delivered_ops {| hi := 0; bm := b0 |} l).
+Proof. exact delivered_ops_at_most_once. Qed.
+Print Assumptions C03_delivered_at_most_once_failed_setups.
+
 (* Not a duplicate, not 0, newer than or at most 64 behind the newest accepted => accepted. *)
 Theorem C03_window_liveness : forall (l : list N) (q : N),
   let s := final check sh_init l in
